@@ -43,7 +43,7 @@ def run(prop, tier, seed):
         prefixes = [name[:k] for k in range(3, len(name) + 1) if sum(1 for n in longs if n.startswith(name[:k])) == 1 or name[:k] == name]
         ambiguous = [name[:k] for k in range(3, len(name)) if sum(1 for n in longs if n.startswith(name[:k])) > 1 and name[:k] not in longs]
         if has_arg:
-            for v in VALUES.get(name, ["val", "a=b", "-x", "with space"]):
+            for v in VALUES.get(name, ["val", "a=b", "-x", "with space", "--fix.diff", "--old", "-", "--x=y"]):
                 g = [[p + "=" + v] for p in prefixes] + [[p, v] for p in prefixes]
                 if short:
                     g += [["-" + short + v], ["-" + short, v], ["-N" + short + v], ["-N" + short, v]]
@@ -67,7 +67,8 @@ def run(prop, tier, seed):
             bad_lines.append([name + "=x"])          # flag with an argument
         for a in ambiguous:
             bad_lines.append([a] + (["v"] if has_arg else []))
-    bad_lines += [["--no-such-option"], ["-y"], ["-p", "x"], ["-F", "1x"], ["-p"], ["a", "b", "c"], ["--strip=one"], ["-pq"], ["--", "a", "b", "c"], ["-\x83"], ["-N\x85"]]
+    bad_lines += [["-p", ""], ["--strip="], ["--strip", ""], ["-F", ""], ["--fuzz="], ["--fuzz", ""], ["-p", "-"], ["-F", "+"], ["-p", "1.5"], ["-F", "0x"],
+                  ["--no-such-option"], ["-y"], ["-p", "x"], ["-F", "1x"], ["-p"], ["a", "b", "c"], ["--strip=one"], ["-pq"], ["--", "a", "b", "c"], ["-\x83"], ["-N\x85"]]
     groups.append([["--", "-x", "-y"], ["--", "-x", "-y"]])
     groups.append([["--input=fix=1.patch"], ["-i", "fix=1.patch"], ["-ifix=1.patch"], ["--input", "fix=1.patch"], ["--inp=fix=1.patch"]])
     # environment
@@ -79,6 +80,9 @@ def run(prop, tier, seed):
     nb = len(cases)
     for argv in bad_lines:
         cases.append(A(argv)); gid.append(-1)
+    for v in (" 1", "+1", "-1", "01", "1 ", "1e3", "0x10", "2147483647", "2147483648", "-2147483648", "-2147483649", "99999999999999999999", "\t2", "1\n"):
+        for argv in (["-p", v], ["--strip=" + v], ["-F", v], ["-p" + v]):
+            cases.append(A(argv)); gid.append(-3)
     nenv = len(cases)
     for px in (0, 1):
         for q in ("none", "c", "literal", "shell", "shell-always", "bogus"):
@@ -114,7 +118,7 @@ def run(prop, tier, seed):
     bad, mism = [], []
     first = {}
     for i, c in enumerate(cases):
-        run_.count(c, True, "spelling group" if gid[i] >= 0 else ("bad command line" if gid[i] == -1 else "environment"))
+        run_.count(c, True, "spelling group" if gid[i] >= 0 else ("bad command line" if gid[i] == -1 else ("numeric spelling" if gid[i] == -3 else "environment")))
         if impl[i] != model[i]:
             mism.append((i, "L1 ARGV", dict(case=c, impl=impl[i], model=model[i], argv=[unhx(a).decode("latin-1") if a != "." else "" for a in c.split()[3].split(",")] if c.split()[3] != "-" else [])))
         if gid[i] >= 0:
